@@ -240,6 +240,20 @@ add(
     "DESIGN.md section 4, C19",
 )
 
+add(
+    "C06", "exploration",
+    "differential property-based testing under a schedule-owning simulator (Hypothesis-drawn schedules + policies, "
+    "bounded pipes, depth-first enumeration for tiny configurations) and with real processes",
+    "The unmodified reader/worker/main code of the multi-core runner is executed under a deterministic scheduler whose "
+    "choices are drawn by Hypothesis (so schedules shrink and replay); every output file (main, redirects, "
+    "demultiplexed, info/rest/wildcard) and the JSON statistics must equal the one-core run, no schedule may deadlock "
+    "and all tasks must terminate. Real -j 2..5 runs sample the operating system's schedules; tiny configurations are "
+    "enumerated depth-first up to a preemption bound.",
+    "Schedules are sampled, not exhausted (except the enumerated tiny configurations, up to the stated bound); the "
+    "simulator abstracts from pipe byte granularity and fork.",
+    "DESIGN.md sections 3.4 and 4, C06",
+)
+
 NOT_APPLICABLE = []  # filled below for every property without a check
 
 ALL_IDS = [f"C{i:02d}" for i in range(1, 21)]
